@@ -25,6 +25,30 @@ FORMS = {"lower": "abc_x", "mixed": "MiXed_Id", "upper": "UPPER_ID", "dq": '"My 
          "pre1": "collateral_id", "pre2": "Auto_Increment_step", "pre3": "autoincrement_no", "dq_kw": '"desc"', "bt_kw": "`Asc`", "br_kw": "[order]", "dq_kw2": '"Comment"'}
 
 
+def _file_with_settings(t):
+    """-> (DDLParser(text, **settings).run(), parse_from_file(path, parser_settings=settings))"""
+    import os
+    import tempfile
+    text, settings = t
+    lib = C._import_lib()
+    out = []
+    for how in ("api", "file"):
+        try:
+            if how == "api":
+                r = lib.DDLParser(text, **settings).run()
+            else:
+                with tempfile.NamedTemporaryFile("w", suffix=".sql", delete=False, encoding="utf-8") as f:
+                    f.write(text)
+                try:
+                    r = lib.parse_from_file(f.name, parser_settings=dict(settings))
+                finally:
+                    os.unlink(f.name)
+            out.append(("ok", C.jnorm(r)))
+        except BaseException as e:  # noqa
+            out.append(("exc", type(e).__name__, str(e)[:150]))
+    return out
+
+
 def strip1(s):
     if isinstance(s, str) and len(s) > 2 and ((s[0] == '"' and s[-1] == '"') or (s[0] == "`" and s[-1] == "`") or (s[0] == "[" and s[-1] == "]")):
         return s[1:-1]
@@ -43,6 +67,9 @@ POSITIONS = [
     ("column_first", "CREATE TABLE t1 ({X} int, b int);", _col(0)),
     ("column_next", "CREATE TABLE t1 (a int, {X} varchar(5) NOT NULL, c int);", _col(1)),
     ("column_last", "CREATE TABLE t1 (a int, b int, {X} int DEFAULT 1);", _col(2)),
+    ("column_compact", "CREATE TABLE t1 (a int,{X} text,c int);", _col(1)),
+    ("column_compact_after_null", "CREATE TABLE t1 (a int NOT NULL,{X} int DEFAULT 1,c int);", _col(1)),
+    ("column_line_start", "CREATE TABLE t1 (\na int,\n{X} varchar(5) NOT NULL,\nc int\n);", _col(1)),
     ("column_after_check", "CREATE TABLE t1 (a int CHECK (a > 0), {X} int, b int);", _col(1)),
     ("pk_list_after_check", "CREATE TABLE t1 (a int CHECK (a > 0), {X} int, PRIMARY KEY (a, {X}));", lambda r: r[0]["primary_key"][1]),
     ("constraint_after_check", "CREATE TABLE t1 (a int, b int, CHECK (a > b), CONSTRAINT {X} UNIQUE (a, b));", lambda r: r[0]["constraints"]["uniques"][0]["constraint_name"]),
@@ -211,6 +238,13 @@ def run(tier, seed):
         if on[1] != want:
             V.mismatch(dict(case, problem="normalize_names=True is not the plain result with one delimiter pair stripped from each identifier",
                             paths=C.diff_paths(want, on[1])[:6]), paths=["normalized"])
+    # ---- normalize_names given through parse_from_file(parser_settings=..) is the same setting -------------------------------------------
+    ftxt = 'CREATE TABLE "S 1"."My Tab" ("Id" int, `note` varchar(5), [flag] int, plain int, PRIMARY KEY ("Id"));\nCREATE INDEX "Ix 1" ON "S 1"."My Tab" (`note`);\n'
+    fres = C.pool().map(_file_with_settings, [(ftxt, {"normalize_names": True}), (ftxt, {"normalize_names": False}), (ftxt, {"normalize_names": True, "silent": False})], 1)
+    for (st, (a, f)) in zip(("True", "False", "True+silent=False"), fres):
+        if a != f:
+            V.mismatch({"position": "file entry point", "form": "delimited", "identifier": "normalize_names=" + st, "ddl": ftxt,
+                        "problem": "parse_from_file(parser_settings=..) differs from DDLParser(text, **settings).run()", "api": a, "file": f}, paths=["file_settings"])
     rc = V.finish()
     cov["known_findings_met"] = V.hits
     cov.update({"states": states, "transitions": trans, "traces_validated_against_impl": nlex + len(meta),
